@@ -72,6 +72,19 @@ def harness(exe, args, timeout=1800, env=None):
     return out
 
 
+def tlaps(v, wd, module, theorems):
+    """discharge every obligation of spec/proofs/<module>.tla with tlapm (a failure is a tool error: the proof is part of the machinery)"""
+    pd = os.path.join(wd, "proofs"); os.makedirs(pd, exist_ok=True)
+    shutil.copy(os.path.join(SPEC, "proofs", module + ".tla"), pd)
+    shutil.rmtree(os.path.join(pd, ".tlacache"), ignore_errors=True)
+    rc, out = sh(f"timeout 1200 tlapm --cleanfp --threads 6 {module}.tla", cwd=pd, timeout=1300)
+    m = re.search(r"All (\d+) obligations proved", out)
+    if not m:
+        raise ToolError(f"TLAPS did not discharge {module}:\n" + out[-1500:])
+    v.cov.setdefault("tlaps", []).append({"module": f"spec/proofs/{module}.tla", "obligations": int(m.group(1)), "discharged": int(m.group(1)), "theorems": theorems})
+    log(f"[{v.pid}] TLAPS: all {m.group(1)} obligations of {module} proved")
+
+
 def drop_aborted_runs(path, aborted):
     """remove from an NDJSON trace the runs (reset .. next reset) whose `run` index is in `aborted`, and lines cut short by an abort"""
     keep, skipping = [], False
@@ -121,6 +134,12 @@ def harness_supervised(exe, args, out, total, stall=60):
         kind = "timeout" if killed else ("alloc_cap" if "memory allocation of" in err else "abort")
         aborts.append((idx, kind, err[-300:]))
         start = idx + 1
+        # the process may have died in the middle of a line: the next one must not continue it
+        if os.path.exists(out) and os.path.getsize(out) > 0:
+            with open(out, "rb+") as f:
+                f.seek(-1, 2)
+                if f.read(1) != b"\n":
+                    f.write(b"\n")
     return aborts
 
 
@@ -199,7 +218,7 @@ def tlc_mc(module, cfg, outpath, workers=None, timeout=3600, env=None, coverage=
             m = re.match(r"Error: Action property (\S+) is violated", line)
             if m:
                 res["violated"] = m.group(1)
-            if "Temporal properties were violated" in line:
+            if "Temporal properties were violated" in line or re.match(r"Error: Temporal property \S+ was violated", line):
                 res["violated"] = "temporal"
     res["tail"] = tail
     if p.returncode == 124:
